@@ -210,8 +210,9 @@ def run(ctx, rep):
     rule_bound(ctx, rep)
     rule_pair(ctx, rep)
     rule_assigned(ctx, rep)
-    from rules import c04_progress
+    from rules import c04_progress, c04_recursion
     c04_progress.run(ctx, rep)
+    c04_recursion.run(ctx, rep)
 
 
 CLIPPY_LINTS = ["unwrap_used", "expect_used", "panic", "todo", "unimplemented", "unreachable", "indexing_slicing", "string_slice"]
